@@ -99,8 +99,26 @@ pub fn exec(w: &[&str]) -> Option<String> {
             impl std::ops::Deref for Back { type Target = Vec<u8>; fn deref(&self) -> &Vec<u8> { &self.0 } }
             if w[1] == "store" {
                 // the stored container and whether reading it back gives an equal graph, signal list and input map
+                // the reader is generic (`impl Read`): the same container through readers that hand out at most k bytes per
+                // read() call (a pipe, a BufReader at a refill boundary, a chained reader) must give the same graph
+                struct Chunked<'a> { data: &'a [u8], pos: usize, k: usize }
+                impl<'a> std::io::Read for Chunked<'a> {
+                    fn read(&mut self, buf: &mut [u8]) -> std::io::Result<usize> {
+                        let n = buf.len().min(self.k).min(self.data.len() - self.pos);
+                        buf[..n].copy_from_slice(&self.data[self.pos..self.pos + n]);
+                        self.pos += n;
+                        Ok(n)
+                    }
+                }
+                let mut chunk_ok = true;
+                for k in [1usize, 2, 3, 7, 64, 129] {
+                    match deserialize_witnesscalc_graph(Chunked { data: &bytes[..], pos: 0, k }) {
+                        Ok((n2, s2, i2)) => chunk_ok &= n2 == nodes && s2 == sigs && i2 == info,
+                        Err(_) => chunk_ok = false,
+                    }
+                }
                 return Some(match deserialize_witnesscalc_graph(std::io::Cursor::new(&bytes[..])) {
-                    Ok((n2, s2, i2)) => format!("same={} bytes={}", n2 == nodes && s2 == sigs && i2 == info, show_bytes(&bytes)),
+                    Ok((n2, s2, i2)) => format!("same={} bytes={}", chunk_ok && n2 == nodes && s2 == sigs && i2 == info, show_bytes(&bytes)),
                     Err(_) => "err".into(),
                 });
             }
